@@ -437,14 +437,14 @@ int main(int argc, char** argv) {
 
     // ---- section 3: race pass (free-running, ThreadSanitizer) -- a monitor, reported separately
     {
-        std::string mk = "make -s -C " + run.verifDir + " -f harness/Makefile REPO=" + std::string(getenv("VERIF_REPO") ? getenv("VERIF_REPO") : "/repo") + " build/bin/C33_tsan 2>&1";
+        std::string mk = "make -s -C " + run.verifDir + " -f harness/Makefile REPO=" + run.repoDir + " B=" + run.buildDir + " " + run.buildDir + "/bin/C33_tsan 2>&1";
         FILE* p = popen(mk.c_str(), "r"); std::string out; char buf[4096];
         while (p && fgets(buf, sizeof buf, p)) out += buf;
         int rc = p ? pclose(p) : -1;
         if (rc != 0) { run.harnessError("building the TSan race-pass harness failed: " + out.substr(0, 2000)); }
         else {
             int iters = thorough ? 300 : 40;
-            std::string cmd = "TSAN_OPTIONS='halt_on_error=0 report_signal_unsafe=0 history_size=4' " + run.verifDir + "/build/bin/C33_tsan " + std::to_string(iters) + " 2>&1";
+            std::string cmd = "TSAN_OPTIONS='halt_on_error=0 report_signal_unsafe=0 history_size=4' " + run.buildDir + "/bin/C33_tsan " + std::to_string(iters) + " 2>&1";
             p = popen(cmd.c_str(), "r"); std::string rep;
             while (p && fgets(buf, sizeof buf, p)) rep += buf;
             rc = p ? pclose(p) : -1;
